@@ -63,4 +63,34 @@ PROPS["C05"] = {
     "assumptions": ["host set changes between attempts are modelled as a time-indexed down predicate", "re-execution after a successful re-prepare is not counted as a retry"],
 }
 
+CORE_STREAM = {"name": "core", "quick": 1200, "thorough": 40000}
+STORM_STREAM = {"name": "storm", "quick": 60, "thorough": 1500, "timeout": 7200}
+CORE_RULE = ("core: sequentialised multi-request histories through the real proxy (1-3 hosts, 1-3 clients, up to 17 actions: requests on chosen client streams incl. equal ids on different clients and immediate reuse, "
+             "backends hold every frame and answer / drop connections in any order) compared per request (hosts tried, reply class, client, stream) with Model.Core; "
+             "storm: 2-8 concurrent clients x 40-240 requests (x8 thorough), 1-3 hosts x 1-2 connections, reordering backends, retried errors, up to 30 connection kills (single and simultaneous), "
+             "bursts that hold >2048 requests in flight per connection; oracles ExactlyOne and Routed on what the clients observed; "
+             "distinct = distinct histories/storm parameters; non-trivial = all")
+CORE_TB = [KERNEL, DRIVER, HARNESS, "Model/Core.lean hand-written (atomic handler steps); atomicity of a handler w.r.t. other requests rests on request.mu / closingMu (lock facts, C18) and is otherwise explored by the storm stream only",
+           "Go runtime, channels, sync.Map, TCP and timers are not modelled; backend assumption: a frame is answered at most once on its own connection and stream"]
+PROPS["C01"] = {
+    "module": "CqlVerif.Props.C01",
+    "gens": ["policy"],
+    "streams": [CORE_STREAM, STORM_STREAM, RETRY_STREAM],
+    "shrink": False,
+    "claim": "Lean theorems replies_le_one and reply_on_own_stream over Model/Core for every interleaving of handler steps, any number of clients/requests/hosts/connections/streams and every fault sequence (induction over arbitrary action lists); single-request liveness no_spin_partial; tied to the code by the core (differential) and storm (oracle) e2e streams",
+    "note": "safety half proved outright; 'never none' is proved only for the single-request life-cycle under the stated proviso (open finding: same-host resend spin) and otherwise checked by the ExactlyOne oracle on e2e storms; intra-handler interleavings rest on lock facts, not on a mechanised reduction theorem",
+    "rule": CORE_RULE, "trusted_base": CORE_TB,
+    "assumptions": ["the client stays connected", "every backend attempt is answered or its connection dropped"],
+}
+PROPS["C02"] = {
+    "module": "CqlVerif.Props.C02",
+    "gens": ["policy"],
+    "streams": [CORE_STREAM, STORM_STREAM],
+    "shrink": False,
+    "claim": "Lean theorems streams_partition, wire_matches_pending and route_correct over Model/Core for all interleavings, stream-id choices, recycling and exhaustion; tied to the code by the core and storm e2e streams (tokens echoed by the backends, Routed oracle)",
+    "note": "trusted: Lean kernel, hand-written model + e2e correspondence; sync.Map/channel linearizability assumed; backends that answer a stream twice are C17's subject",
+    "rule": CORE_RULE, "trusted_base": CORE_TB,
+    "assumptions": ["a backend answers a frame at most once, on the connection and stream it arrived on"],
+}
+
 NOT_APPLICABLE = {}
